@@ -419,7 +419,7 @@ func runC08(seed uint64, tier, dir, replay string) error {
 		o.Meta["direct_violations"] = direct
 	}
 	o.Meta["outcomes"] = outcomes
-	o.Meta["rule"] = "per decoder (Ethernet+VLAN, ARP, IPv4, IPv6, ICMP, UDP, TCP, hop-by-hop, routing, fragment, VLAN, IPv6 option, IGMPv1/2, IGMPv3 query / group record / report, DHCP, DHCP options, LLDP and its three TLVs): truncation of three valid packets of different shapes (Ethernet: tagged and untagged) at every offset (<=120), every 16-bit field of the first 12 bytes at every value 0..72, every one of the first 24 bytes set to 0/1/0xfe/0xff, random valid packets and structure-aware mutations (truncate, boundary bytes, flips, extension); Ethernet/IPv6 packets whose extension headers carry Hdr Ext Len 0/1/31/254/255 and are long enough to hold them; IGMPv3 source / aux counts at the values where 16-bit size arithmetic wraps, a membership report holding a group record of exactly 65536 bytes; for the kinds not reached from Ethernet (802.1Q tag, IPv6 option, IGMP, DHCP, LLDP) the valid packets are encodings of generated well-formed values and the model's re-encoding and reported size of every decoded value are compared with the implementation's; each decode runs in a worker subprocess under a 3 s wall-clock limit, a 1 GiB heap limit and an allocation budget of 512 bytes per input byte + 256 KiB; distinct by decoder x input kind x outcome x size bucket"
+	o.Meta["rule"] = "per decoder (Ethernet+VLAN, ARP, IPv4, IPv6, ICMP, UDP, TCP, hop-by-hop, routing, fragment, VLAN, IPv6 option, IGMPv1/2, IGMPv3 query / group record / report, DHCP, DHCP options, LLDP and its three TLVs): truncation of three valid packets of different shapes (Ethernet: tagged and untagged) at every offset (<=120), every 16-bit field of the first 12 bytes at every value 0..72, every one of the first 24 bytes set to 0/1/0xfe/0xff, random valid packets and structure-aware mutations (truncate, boundary bytes, flips, extension); Ethernet/IPv6 packets whose extension headers carry Hdr Ext Len 0/1/31/254/255 and are long enough to hold them; IGMPv3 source / aux counts at the values where 16-bit size arithmetic wraps, a membership report holding a group record of exactly 65536 bytes; for the kinds not reached from Ethernet (802.1Q tag, IPv6 option, IGMP, DHCP, LLDP) the valid packets are encodings of generated well-formed values and the model's re-encoding and reported size of every decoded value are compared with the implementation's; each decode runs in a worker subprocess under a 3 s wall-clock limit, a 1 GiB heap limit and an allocation budget of 512 bytes per input byte + 256 KiB and a processor-time budget of 30 us per input byte + 0.4 s (ten times what the slowest legitimate decode needs); distinct by decoder x input kind x outcome x size bucket"
 	return o.Close()
 }
 
